@@ -73,9 +73,9 @@ func readKnown() (map[string]knownFinding, error) {
 }
 
 type replayCase struct {
-	ID      string     `json:"id"`
-	Harness string     `json:"harness"`
-	Tier    string     `json:"tier"`
+	ID      string      `json:"id"`
+	Harness string      `json:"harness"`
+	Tier    string      `json:"tier"`
 	Vals    []replayVal `json:"vals"`
 }
 
@@ -251,28 +251,28 @@ func reproduced(clause string, isPanic bool, o replayOut) bool {
 }
 
 type harnessEvidence struct {
-	Harness       string            `json:"harness"`
-	Paths         int               `json:"paths"`
-	Decisions     int               `json:"solver_decided_branches"`
-	Obligations   int               `json:"obligations"`
-	Discharged    int               `json:"discharged"`
-	Violations    int               `json:"violating_obligation_instances"`
-	KnownHits     int               `json:"known_finding_obligation_instances"`
-	Inconclusive  int               `json:"inconclusive"`
-	Abandoned     int               `json:"unsupported_paths"`
-	Unwind        int               `json:"unwinding_failures"`
-	Reached       map[string]int    `json:"reach_labels"`
-	Bounds        map[string]int64  `json:"bounds"`
-	EndReasons    map[string]int    `json:"path_end_reasons"`
-	SolverTimeS   float64           `json:"solver_time_s"`
-	Queries       int               `json:"solver_queries"`
-	CacheHits     int               `json:"solver_cache_hits"`
-	WallS         float64           `json:"wall_s"`
-	Incomplete    string            `json:"incomplete,omitempty"`
-	FloatErrVars  int               `json:"float_rounding_error_vars,omitempty"`
-	AbandonWhy    map[string]int    `json:"unsupported_reasons,omitempty"`
-	InconclWhy    map[string]int    `json:"inconclusive_clauses,omitempty"`
-	Merges        int               `json:"branches_joined_by_state_merging"`
+	Harness      string           `json:"harness"`
+	Paths        int              `json:"paths"`
+	Decisions    int              `json:"solver_decided_branches"`
+	Obligations  int              `json:"obligations"`
+	Discharged   int              `json:"discharged"`
+	Violations   int              `json:"violating_obligation_instances"`
+	KnownHits    int              `json:"known_finding_obligation_instances"`
+	Inconclusive int              `json:"inconclusive"`
+	Abandoned    int              `json:"unsupported_paths"`
+	Unwind       int              `json:"unwinding_failures"`
+	Reached      map[string]int   `json:"reach_labels"`
+	Bounds       map[string]int64 `json:"bounds"`
+	EndReasons   map[string]int   `json:"path_end_reasons"`
+	SolverTimeS  float64          `json:"solver_time_s"`
+	Queries      int              `json:"solver_queries"`
+	CacheHits    int              `json:"solver_cache_hits"`
+	WallS        float64          `json:"wall_s"`
+	Incomplete   string           `json:"incomplete,omitempty"`
+	FloatErrVars int              `json:"float_rounding_error_vars,omitempty"`
+	AbandonWhy   map[string]int   `json:"unsupported_reasons,omitempty"`
+	InconclWhy   map[string]int   `json:"inconclusive_clauses,omitempty"`
+	Merges       int              `json:"branches_joined_by_state_merging"`
 }
 
 func (r *runner) run() int {
@@ -316,16 +316,16 @@ func (r *runner) run() int {
 	}
 
 	type pending struct {
-		c       replayCase
-		pkg     string
-		kind    string // violation | known | witness
-		clause  string
-		isPanic bool
-		key     string
-		label   string
+		c         replayCase
+		pkg       string
+		kind      string // violation | known | witness
+		clause    string
+		isPanic   bool
+		key       string
+		label     string
 		tolerated []string
-		where   string
-		human   []string
+		where     string
+		human     []string
 	}
 	var pend []pending
 	var hev []harnessEvidence
